@@ -149,7 +149,14 @@ def check_cfg_write(ctx, p, key, ename, i, e, CFG):
         ctx.ob("R18.5", key + "/initial config", True, trivial=True)
         return
     if ename != "migrate":
-        ctx.ob("R18.5", key + "/CONFIG written", False, sites=[e.site], detail="CONFIG written by %s" % ename)
+        # another message may maintain other settings; what the property protects is the default gas limit, which such a write
+        # must carry over from the stored configuration untouched
+        base0, fields0 = update_base(e.value)
+        lf0 = loaded_from(base0)
+        keeps = lf0 is not None and lf0[0] == CFG and lf0[2] == e.ver and "default_gas_limit" not in fields0
+        ctx.ob("R18.5", key + "/CONFIG written", keeps, sites=[e.site],
+               detail="CONFIG written by %s as %s: not the stored configuration with default_gas_limit left as it is" % (ename, show(e.value)[:160]),
+               sample={"changed": sorted(fields0)})
         return
     v = e.value
     base, fields = update_base(v)
